@@ -21,7 +21,9 @@ RULE = ("per tree shape: (a) raw vs own log2(CPM+1) declared normalised; "
         "but no marker, not in reference x2} added to normalised input; (e) a "
         "negative raw value at every (cell, gene) position x {dense, CSR, "
         "CSC} x HDF5 layouts {contiguous, chunk length 1,2,3,5} must raise "
-        "and write no results.  Bitwise equality for (c),(d); "
+        "and write no results; (f) the same raw counts stored as float64 / "
+        "float32 / uint8 / int16 / uint16 / int32 / uint32 / int64 with "
+        "per-cell totals beyond the narrow types' range map identically.  Bitwise equality for (c),(d); "
         "1e-9 on correlations at factor 1 for (a),(b), near-ties skipped.  "
         "distinct_nontrivial = distinct (shape, relation, instance) pairs "
         "compared")
@@ -44,7 +46,7 @@ def cases(tier, seed):
     shapes = domains.shapes_up_to(b['max_levels'], b['max_leaves'],
                                   min_leaves=2)
     for si, (L, n, shape) in enumerate(shapes):
-        for rel in ('norm', 'extra', 'negative'):
+        for rel in ('norm', 'extra', 'negative', 'dtype'):
             yield {'rel': rel, 'L': L, 'shape': shape,
                    'scheme': 'BDE'[si % 3], 'seed': seed}
         for part in range(5):
@@ -97,6 +99,48 @@ def evaluate(case, scratch):
                 viol('declared-normalisation-differs', d)
             keys.append(f'{shape_s}|norm')
             sample = {'relation': 'raw vs declared log2CPM', 'shape': shape_s}
+
+    elif rel == 'dtype':
+        # the same raw counts stored in every numeric type anndata writes,
+        # with per-cell totals beyond the range of the narrow integer types
+        from mc import sparsegen
+        big = np.round(b.raw / max(1.0, b.raw.max()) * 40000.0)
+        big[big < 1] = np.where(b.raw > 0, 1, 0)[big < 1]
+        small = np.round(b.raw / max(1.0, b.raw.max()) * 200.0)
+        small[small < 1] = np.where(b.raw > 0, 1, 0)[small < 1]
+        for mat, dtypes, tag in (
+                (big, ['float64', 'float32', 'uint16', 'int32', 'uint32',
+                       'int64'], 'totals>65535'),
+                (small, ['float64', 'uint8', 'int16', 'uint16'],
+                 'totals>255')):
+            base = None
+            for dt in dtypes:
+                for enc in ('dense', 'csr'):
+                    q = b.dir / f'q_dt_{tag[:8]}_{dt}_{enc}.h5ad'
+                    sparsegen.write_h5ad(q, mat, enc, dtype=dt,
+                                         obs_ids=list(b.cell_ids),
+                                         var_ids=list(b.query_genes))
+                    c = scenario.run_mapping(
+                        b, dict(f1, normalization='raw', encoding=enc),
+                        scratch.new_dir('dt'), query_path=q)
+                    n_runs += 1
+                    if not _ok(c):
+                        viol('dtype-run-failed',
+                             f'{tag} {dt} {enc}: {c.error}')
+                        continue
+                    if base is None:
+                        base = c
+                        frag = mapcheck.fragile_cells(b, c.config)
+                        continue
+                    for d in mapcheck.compare_results(
+                            base.blob['results'], c.blob['results'], levels,
+                            tol=1e-6, skip=frag)[:2]:
+                        viol('stored-dtype-changes-mapping',
+                             f'{tag}: raw counts stored as {dt} ({enc}) vs '
+                             f'float64: {d}')
+                    keys.append(f'{shape_s}|dtype|{tag}|{dt}|{enc}')
+        sample = {'relation': 'numeric type of the stored raw counts',
+                  'max_total': float(big.sum(axis=1).max())}
 
     elif rel == 'scale':
         a = scenario.run_mapping(b, dict(f1, normalization='raw'),
